@@ -120,14 +120,15 @@ class Ocp(Stage):
                 raise
     
     def _untranscribe(self,**kwargs):
-        if self.is_transcribed:
-            self._transcribed_placeholders.clear()
-            self._untranscribe_recurse(phase=0)
-            self._placeholders_untranscribe_recurse(1)
-            self._untranscribe_recurse(phase=1)
-            self._original._set_transcribed(False)
+        # Also when the transcription was merely invalidated (a declaration after a solve):
+        # the method objects still hold the stale transcription (Opti) then
+        self._transcribed_placeholders.clear()
+        self._untranscribe_recurse(phase=0)
+        self._placeholders_untranscribe_recurse(1)
+        self._untranscribe_recurse(phase=1)
+        self._original._set_transcribed(False)
 
-            self._untranscribe_recurse(phase=2)
+        self._untranscribe_recurse(phase=2)
 
     @property
     @transcribed
